@@ -1208,6 +1208,17 @@ where
             .map_err(Error::Io)
     }
 
+    /// Overwrites the blocks at the start of the original file
+    fn overwrite_blocks<W: std::io::Write>(original: W, blocks: BlockList) -> Result<(), Error> {
+        use std::io::Write;
+
+        // the buffered writes must be flushed explicitly,
+        // since dropping a BufWriter discards any write error
+        let mut writer = BufWriter::new(original);
+        write_blocks(writer.by_ref(), blocks)?;
+        writer.flush().map_err(Error::Io)
+    }
+
     /// Returns Ok if successful
     fn grow_padding(blocks: &mut BlockList, more_bytes: u64) -> Result<(), ()> {
         // if a block set has more than one PADDING, we'll try the first
@@ -1267,7 +1278,7 @@ where
             match grow_padding(&mut blocks, old_size - new_size) {
                 Ok(()) => {
                     original.seek(start).map_err(Error::Io)?;
-                    write_blocks(BufWriter::new(original), blocks)
+                    overwrite_blocks(original, blocks)
                         .map(|()| false)
                         .map_err(E::from)
                 }
@@ -1279,7 +1290,7 @@ where
         Ordering::Equal => {
             // blocks are the same size, so no need to adjust padding
             original.seek(start).map_err(Error::Io)?;
-            write_blocks(BufWriter::new(original), blocks)
+            overwrite_blocks(original, blocks)
                 .map(|()| false)
                 .map_err(E::from)
         }
@@ -1289,7 +1300,7 @@ where
             match shrink_padding(&mut blocks, new_size - old_size) {
                 Ok(()) => {
                     original.seek(start).map_err(Error::Io)?;
-                    write_blocks(BufWriter::new(original), blocks)
+                    overwrite_blocks(original, blocks)
                         .map(|()| false)
                         .map_err(E::from)
                 }
